@@ -716,7 +716,14 @@ impl<'tcx> Cx<'tcx> {
                 for f in var.fields.iter() {
                     fields.push(J::Obj(vec![
                         ("name", s(f.name.as_str())),
-                        ("ty", self.ty(tcx.type_of(f.did).instantiate_identity().skip_norm_wip())),
+                        ("ty", {
+                            let env = TypingEnv::post_analysis(tcx, did);
+                            let un = tcx.type_of(f.did).instantiate_identity();
+                            match tcx.try_normalize_erasing_regions(env, un) {
+                                Ok(t) => self.ty(t),
+                                Err(_) => self.ty(tcx.type_of(f.did).instantiate_identity().skip_norm_wip()),
+                            }
+                        }),
                         ("vis", s(format!("{:?}", f.vis))),
                     ]));
                 }
@@ -732,11 +739,20 @@ impl<'tcx> Cx<'tcx> {
                     ("fields", J::Arr(fields)),
                 ]));
             }
+            let mut gps = vec![];
+            for p in &tcx.generics_of(did).own_params {
+                gps.push(J::Obj(vec![
+                    ("name", s(p.name.as_str())),
+                    ("index", J::Int(p.index as i128)),
+                    ("kind", s(format!("{:?}", p.kind).split([' ', '{']).next().unwrap_or("").to_string())),
+                ]));
+            }
             v.push(J::Obj(vec![
                 ("def", s(self.def_key(did))),
                 ("name", s(self.def_name(did))),
                 ("kind", s(format!("{:?}", kind))),
                 ("vis", s(format!("{:?}", tcx.visibility(did)))),
+                ("generics", J::Arr(gps)),
                 ("variants", J::Arr(variants)),
                 ("span", self.span(tcx.def_span(did))),
             ]));
